@@ -268,7 +268,7 @@ def run(mod, tier, seed, workers=None, replay_path=None):
         'coverage': cov, 'assumptions': list(mod.ASSUMPTIONS), 'wall_s': round(wall, 2),
         'violations': n_new,
     }
-    if not replay_path and not os.environ.get('VERIF_NO_EVIDENCE'):
+    if not replay_path and os.environ.get('VERIF_NO_EVIDENCE', '') in ('', '0'):
         os.makedirs(os.path.join(VERIF, 'evidence'), exist_ok=True)
         with open(os.path.join(VERIF, 'evidence', f'{pid}.json'), 'w') as f:
             json.dump(ev, f, indent=1, sort_keys=True)
